@@ -10,4 +10,5 @@ cp /repo/go.sum go.sum
 go build -o build/instrument ./tools/instrument
 ./build/instrument -repo /repo -verif /verif -out /verif/build/overlay
 go build -overlay build/overlay/overlay.json -o build/mc ./cmd/mc
+go build -race -overlay build/overlay/overlay.json -o build/mc-race ./cmd/mc
 echo "setup: harness built"
